@@ -110,8 +110,7 @@ def write(
         list_roots = []
         list_nodes = []
         list_others = []
-        for x in range(len(data)):
-            x = data.pop(0)
+        for x in data:
             if isinstance(x,Root):
                 list_roots.append(x)
             elif isinstance(x,Node):
